@@ -101,9 +101,16 @@ def extract(repo=None, force=False, quiet=True):
             raise SystemExit("gsa: fact file has %d bodies, floor is %d" % (n, BODY_FLOOR))
         if not quiet:
             sys.stderr.write("gsa: extracted %d bodies in %.1fs -> %s\n" % (n, time.time() - t0, out))
-        # keep the cache small
-        files = sorted(glob.glob(os.path.join(CACHE, "facts", "*.json")), key=os.path.getmtime)
+        # keep the cache small: files older than an hour beyond the 12 newest (never one a parallel run may be about to read)
+        def mt(f):
+            try:
+                return os.path.getmtime(f)
+            except OSError:
+                return 0
+        files = sorted(glob.glob(os.path.join(CACHE, "facts", "*.json")), key=mt)
         for old in files[:-12]:
+            if time.time() - mt(old) < 3600:
+                continue
             try:
                 os.unlink(old)
             except OSError:
